@@ -59,7 +59,12 @@ def run(tier, seed):
     for cfgname, cfg in (('CfgIdle', IDLE), ('CfgTimers', TIMERS)):
         scs, logs, acc = tracevalid.validate(r, tier, cfgname, cfg, 300 if tier == 'quick' else 3000)
         extra_traces.extend(zip(scs, logs))
-    results, rej = sessprop.run_model_instances(r, 'MC_C07', 'Mon_C07', insts, kinds={'ev', 'stop', 'escape', 'hang'},
+    def variants(sc, b):
+        out = [('base', sc)]
+        if sessprop.sampled(sc, b, 9):
+            out += [('wss', sessprop.via_tls(sc)), ('proxy', sessprop.via_proxy(sc)), ('wss-proxy', sessprop.via_proxy(sessprop.via_tls(sc)))]
+        return out
+    results, rej = sessprop.run_model_instances(r, 'MC_C07', 'Mon_C07', insts, kinds={'ev', 'stop', 'escape', 'hang'}, variants=variants,
                                                 max_exec=None if tier == 'quick' else 40000)
     seqs = set()
     seen = set()
